@@ -377,3 +377,11 @@ def run(ctx):
     if seterr:
         ctx.ok("R6", "main() enables floating-point trapping before converting (a numerical fault ends the process non-zero)", f"{main.module.relpath}:{seterr[0].node.lineno}")
     ctx.floor("R6", nh, 1, "handlers naming arithmetic exceptions")
+
+    # ------------------------------------------------------------------ R7
+    # every iodata-convert run is a new process: anything that depends on the interpreter's hash seed makes the CLI
+    # write other bytes than the API call made in the caller's process
+    ctx.rule("R7", "no set iteration order reaches the written file", "the CLI and the API write different bytes for the same input (and the CLI differs from run to run)")
+    from .setorder import check_set_order
+
+    check_set_order(ctx, "R7", list(prog.package_funcs()), "package functions")
